@@ -7,6 +7,7 @@ pub mod gen;
 pub mod c01;
 pub mod c02;
 pub mod c03;
+pub mod c04;
 pub mod c05;
 pub mod tree;
 
@@ -50,6 +51,7 @@ pub fn get(id: &str) -> Option<Box<dyn Check>> {
         "C01" => Some(Box::new(c01::C01)),
         "C02" => Some(Box::new(c02::C02)),
         "C03" => Some(Box::new(c03::C03)),
+        "C04" => Some(Box::new(c04::C04)),
         "C05" => Some(Box::new(c05::C05)),
         _ => None,
     }
